@@ -68,10 +68,11 @@ def gen_url(r: random.Random):
     if r.random() < 0.15:
         ui = r.choice(["user@", "user:pw@", "u%40x:p@", ":@"])
     shape["userinfo"] = bool(ui)
-    pk = r.choice(["none", "none", "default", "other", "empty"])
+    pk = r.choice(["none", "none", "default", "other", "empty", "cross"])
     dflt = {"http": 80, "https": 443, "ws": 80, "wss": 443}[shape["scheme"]]
+    cross = r.choice([p_ for p_ in (21, 80, 443, 1080) if p_ != dflt])  # another scheme's default port
     port = {"none": "", "default": f":{dflt}", "other": f":{r.choice([1, 81, 8080, 8443, 65535, dflt + 1])}",
-            "empty": ":"}[pk]
+            "empty": ":", "cross": f":{cross}"}[pk]
     shape["port"] = pk
     nseg = r.randint(0, 4)
     segs = []
